@@ -1,4 +1,4 @@
-import MirosModel.Hsm.DispatchLemmas
+import MirosModel.Hsm.FallLemmas
 import MirosModel.Gen.Constants
 /-!
 # C24 — on ANY chart the processor does what the checked UML spec says, or raises
@@ -9,11 +9,19 @@ chart is malformed at the point reached (`none`), the processor raises; otherwis
 exactly the specified actions and rests in the specified state.  It never diverges.
 The switches are the ones generated from the current source (`Miros.Gen.cfg`); the proofs use
 `resync`, `drillGuard` (dispatch) and `initGuard` (start) being on, by `decide`.
+
+The first part (`C24_dispatch_checked` …) is for charts whose handlers all end in
+`else: temp = parent; return SUPER` (`fall = false`).  The second part (`C24_fall_*`) is about
+*fall-through* states — handlers written as an `if/elif` ladder without that final `else`, which
+answer `None` (and leave `temp` alone) to every signal they have no clause for: such a chart still
+never makes the processor diverge in `dispatch` / `start_at`; it raises exactly when a fall-through
+state lies on a path the step has to walk (or the chart is malformed otherwise), and a step that
+does not touch the state is, call for call, the step of the repaired chart.
 -/
 namespace Miros.Props.C24
 open Miros.Hsm
 
-theorem C24_dispatch_checked (c : Chart)
+theorem C24_dispatch_checked (c : Chart) (hf : ∀ s, c.fall s = false)
     (hdepth : ∀ s t, c.init s = some t → t.length ≤ c.depth)
     (htop : ∀ s n t, c.react s n = .tran t → t ≠ [])
     (cur : St) (n : Nat) :
@@ -21,19 +29,19 @@ theorem C24_dispatch_checked (c : Chart)
     | some sr => ∃ r, dispatch c Miros.Gen.cfg cur n = .ok r ∧ actions r.log = sr.log ∧
                       r.state = sr.state ∧ r.temp = sr.state
     | none => ∃ l, dispatch c Miros.Gen.cfg cur n = .raise l :=
-  dispatch_checked c Miros.Gen.cfg (by decide) (by decide) hdepth htop cur n
+  dispatch_checked c hf Miros.Gen.cfg (by decide) (by decide) hdepth htop cur n
 
 /-- `hd`: the declared depth is not the degenerate `0`, or `s` takes no initial transition.
 (With `c.depth = 0` and `c.init s = some []` the fuel `c.depth + 1` of the model runs out: see
 `start_depth0_diverges` below; `c.depth = 0` cannot bound a tree that contains `s ≠ top`.) -/
-theorem C24_start_checked (c : Chart)
+theorem C24_start_checked (c : Chart) (hf : ∀ s, c.fall s = false)
     (hdepth : ∀ s t, c.init s = some t → t.length ≤ c.depth)
     (s : St) (hs : s ≠ []) (hd : 0 < c.depth ∨ c.init s = none) :
     match specStartC c s with
     | some sr => ∃ r, startAt c Miros.Gen.cfg s = .ok r ∧ actions r.log = sr.log ∧
                       r.state = sr.state ∧ r.temp = sr.state
     | none => ∃ l, startAt c Miros.Gen.cfg s = .raise l := by
-  have h := start_checked c Miros.Gen.cfg (by decide) hdepth s hs hd
+  have h := start_checked c hf Miros.Gen.cfg (by decide) hdepth s hs hd
   cases hsp : specStartC c s with
   | none => rw [hsp] at h; exact h
   | some sr =>
@@ -42,11 +50,11 @@ theorem C24_start_checked (c : Chart)
     exact ⟨r, h1, h2, h3, h4⟩
 
 /-- never diverges (dispatch) -/
-theorem C24_dispatch_no_diverge (c : Chart)
+theorem C24_dispatch_no_diverge (c : Chart) (hf : ∀ s, c.fall s = false)
     (hdepth : ∀ s t, c.init s = some t → t.length ≤ c.depth)
     (htop : ∀ s n t, c.react s n = .tran t → t ≠ [])
     (cur : St) (n : Nat) (l : Log) : dispatch c Miros.Gen.cfg cur n ≠ .diverge l := by
-  have h := C24_dispatch_checked c hdepth htop cur n
+  have h := C24_dispatch_checked c hf hdepth htop cur n
   intro e
   cases hsp : specDispatchC c cur n with
   | none => rw [hsp] at h; obtain ⟨l', h⟩ := h; rw [e] at h; cases h
@@ -70,6 +78,7 @@ def demo : Chart where
     else none
   exitH := fun _ => true
   depth := 4
+  fall := fun _ => false
 
 theorem demo_depth : ∀ s t, demo.init s = some t → t.length ≤ demo.depth := by
   intro s t h
@@ -104,10 +113,10 @@ example : specStartC demo [5, 1] = none := by decide
 
 /-- so the processor raises on the malformed initial transitions and on the `None` handler -/
 example : ∃ l, dispatch demo Miros.Gen.cfg [4, 3, 2, 1] 1 = .raise l := by
-  have := C24_dispatch_checked demo demo_depth demo_top [4, 3, 2, 1] 1
+  have := C24_dispatch_checked demo (fun _ => rfl) demo_depth demo_top [4, 3, 2, 1] 1
   rwa [show specDispatchC demo [4, 3, 2, 1] 1 = none from by decide] at this
 example : ∃ l, startAt demo Miros.Gen.cfg [5, 1] = .raise l := by
-  have := C24_start_checked demo demo_depth [5, 1] (by decide) (Or.inl (by decide))
+  have := C24_start_checked demo (fun _ => rfl) demo_depth [5, 1] (by decide) (Or.inl (by decide))
   rwa [show specStartC demo [5, 1] = none from by decide] at this
 
 /-- why `C24_start_checked` needs `hd`: a chart declaring `depth = 0` whose state `[1]` has an
@@ -118,6 +127,7 @@ def depth0 : Chart where
   init := fun s => if s = [1] then some [] else none
   exitH := fun _ => true
   depth := 0
+  fall := fun _ => false
 
 def isDiverge {α : Type} : Outcome α → Bool
   | .diverge _ => true
@@ -126,5 +136,300 @@ def isDiverge {α : Type} : Outcome α → Bool
 theorem start_depth0_diverges :
     specStartC depth0 [1] = none ∧ isDiverge (startAt depth0 Miros.Gen.cfg [1]) = true := by
   decide
+
+/-! ## fall-through states: handlers without the final `else: temp = parent; return SUPER`
+
+`Clear c X` : no fall-through state on the path of `X`; `DClear c cur n` : none on the paths
+`dispatch` walks for event `n` in state `cur` (the current state's path, the target's path, the
+paths of the targets of the initial transitions followed from the target, `initChain`);
+`c.noFall` : the chart with every final `else` in place.  The statements hold for ANY number of
+fall-through states, any initial transitions, any `None` reactions; `OneFall` below is the class
+"the only malformation is the one fall-through state `b`". -/
+
+/-- **C24 (fall-through, dispatch).** On any chart, fall-through states included: where the checked
+spec says the chart is malformed at the point reached, `dispatch` raises; otherwise it either
+performs exactly the specified actions and rests in the specified state, or it raises because a
+fall-through state lies on one of the paths the step walks.  In particular the outcome is
+`Outcome.ok` or `Outcome.raise`, never `Outcome.diverge` (`C24_fall_dispatch_no_diverge`). -/
+theorem C24_fall_dispatch_checked (c : Chart)
+    (hdepth : ∀ s t, c.init s = some t → t.length ≤ c.depth)
+    (htop : ∀ s n t, c.react s n = .tran t → t ≠ [])
+    (cur : St) (n : Nat) :
+    match specDispatchC c cur n with
+    | some sr => (∃ r, dispatch c Miros.Gen.cfg cur n = .ok r ∧ actions r.log = sr.log ∧
+                      r.state = sr.state ∧ r.temp = sr.state) ∨
+                 (¬ DClear c cur n ∧ ∃ l, dispatch c Miros.Gen.cfg cur n = .raise l)
+    | none => ∃ l, dispatch c Miros.Gen.cfg cur n = .raise l :=
+  dispatch_fall_checked c Miros.Gen.cfg (by decide) (by decide) hdepth htop cur n
+
+/-- every `dispatch`, from every configuration (reachable or not), ends with `Outcome.ok` or
+`Outcome.raise` — never `Outcome.diverge` -/
+theorem C24_fall_dispatch_no_diverge (c : Chart)
+    (hdepth : ∀ s t, c.init s = some t → t.length ≤ c.depth)
+    (htop : ∀ s n t, c.react s n = .tran t → t ≠ [])
+    (cur : St) (n : Nat) :
+    (∃ r, dispatch c Miros.Gen.cfg cur n = .ok r) ∨ (∃ l, dispatch c Miros.Gen.cfg cur n = .raise l) := by
+  have h := C24_fall_dispatch_checked c hdepth htop cur n
+  cases hs : specDispatchC c cur n with
+  | none => rw [hs] at h; exact Or.inr h
+  | some sr =>
+    rw [hs] at h
+    rcases h with ⟨r, h, _⟩ | ⟨_, h⟩
+    · exact Or.inl ⟨r, h⟩
+    · exact Or.inr h
+
+/-- **C24 (fall-through, start_at).** The same for `start_at(s)`: it raises where the checked spec
+says "malformed"; otherwise it does what the spec says (and calls no exit handler), or raises
+because a fall-through state lies on the path of `s` or of an initial transition's target.
+(`hd` as in `C24_start_checked`.) -/
+theorem C24_fall_start_checked (c : Chart)
+    (hdepth : ∀ s t, c.init s = some t → t.length ≤ c.depth)
+    (s : St) (hs : s ≠ []) (hd : 0 < c.depth ∨ c.init s = none) :
+    match specStartC c s with
+    | some sr => (∃ r, startAt c Miros.Gen.cfg s = .ok r ∧ actions r.log = sr.log ∧
+                      r.state = sr.state ∧ r.temp = sr.state ∧ ∀ x ∈ r.log, x.sig ≠ .exit) ∨
+                 (¬ (Clear c s ∧ ∀ x ∈ initChain c (c.depth + 1) s, Clear c x) ∧
+                    ∃ l, startAt c Miros.Gen.cfg s = .raise l)
+    | none => ∃ l, startAt c Miros.Gen.cfg s = .raise l :=
+  start_fall_checked c Miros.Gen.cfg (by decide) hdepth s hs hd
+
+/-- every `start_at` ends with `Outcome.ok` or `Outcome.raise` — never `Outcome.diverge` -/
+theorem C24_fall_start_no_diverge (c : Chart)
+    (hdepth : ∀ s t, c.init s = some t → t.length ≤ c.depth)
+    (s : St) (hs : s ≠ []) (hd : 0 < c.depth ∨ c.init s = none) :
+    (∃ r, startAt c Miros.Gen.cfg s = .ok r) ∨ (∃ l, startAt c Miros.Gen.cfg s = .raise l) := by
+  have h := C24_fall_start_checked c hdepth s hs hd
+  cases hsp : specStartC c s with
+  | none => rw [hsp] at h; exact Or.inr h
+  | some sr =>
+    rw [hsp] at h
+    rcases h with ⟨r, h, _⟩ | ⟨_, h⟩
+    · exact Or.inl ⟨r, h⟩
+    · exact Or.inr h
+
+/-! ### one fall-through state -/
+
+/-- a chart whose only malformation is the fall-through state `b`: initial transitions go to proper
+descendants, transition targets are real states, no handler returns `None` explicitly, and every
+handler other than `b`'s ends in `else: … SUPER` -/
+structure OneFall (c : Chart) (b : St) : Prop where
+  init_desc : ∀ s t, c.init s = some t → s <:+ t ∧ s ≠ t
+  init_depth : ∀ s t, c.init s = some t → t.length ≤ c.depth
+  tran_ne_top : ∀ s n t, c.react s n = .tran t → t ≠ []
+  no_none : ∀ s n, c.react s n ≠ .none
+  only_b : ∀ s, s ≠ b → c.fall s = false
+
+/-- with the final `else` restored the chart is well formed -/
+theorem OneFall.wf {c : Chart} {b : St} (h : OneFall c b) : WF c.noFall :=
+  ⟨h.init_desc, h.init_depth, h.tran_ne_top, h.no_none, fun _ => rfl⟩
+
+/-- `b` lies on a path the step has to walk: it is the current state or encloses it, or it is the
+transition's target or encloses it, or it is / encloses the target of an initial transition
+followed from the target -/
+def Touches (c : Chart) (b cur : St) (n : Nat) : Prop :=
+  b <:+ cur ∨ ∃ S T, (offers c n cur).2 = .tran S T ∧
+    (b <:+ T ∨ ∃ x ∈ initChain c (c.depth + 1) T, b <:+ x)
+
+/-- the same for `start_at(s)` -/
+def TouchesStart (c : Chart) (b s : St) : Prop :=
+  b <:+ s ∨ ∃ x ∈ initChain c (c.depth + 1) s, b <:+ x
+
+theorem touches_of_not_dclear {c : Chart} {b : St} (hb : ∀ s, s ≠ b → c.fall s = false) {cur : St} {n : Nat}
+    (h : ¬ DClear c cur n) : Touches c b cur n := by
+  apply Classical.byContradiction
+  intro hn
+  apply h
+  refine ⟨clear_of_not_on_path hb (fun hc => hn (Or.inl hc)), ?_⟩
+  intro S T ho
+  refine ⟨clear_of_not_on_path hb (fun hc => hn (Or.inr ⟨S, T, ho, Or.inl hc⟩)), ?_⟩
+  intro x hx
+  exact clear_of_not_on_path hb (fun hc => hn (Or.inr ⟨S, T, ho, Or.inr ⟨x, hx, hc⟩⟩))
+
+theorem touchesStart_of_not_clear {c : Chart} {b : St} (hb : ∀ s, s ≠ b → c.fall s = false) {s : St}
+    (h : ¬ (Clear c s ∧ ∀ x ∈ initChain c (c.depth + 1) s, Clear c x)) : TouchesStart c b s := by
+  apply Classical.byContradiction
+  intro hn
+  apply h
+  refine ⟨clear_of_not_on_path hb (fun hc => hn (Or.inl hc)), ?_⟩
+  intro x hx
+  exact clear_of_not_on_path hb (fun hc => hn (Or.inr ⟨x, hx, hc⟩))
+
+/-- **C24 (one fall-through state, dispatch).** If the only malformation of the chart is the
+fall-through state `b`, every `dispatch`, from any configuration, either performs exactly the actions
+of the UML spec and rests in the specified state, or raises — and it raises only when `b` lies on a
+path the step walks.  It never diverges. -/
+theorem C24_fall_one_dispatch (c : Chart) (b : St) (h : OneFall c b) (cur : St) (n : Nat) :
+    (∃ r, dispatch c Miros.Gen.cfg cur n = .ok r ∧ actions r.log = (specDispatch c cur n).log ∧
+        r.state = (specDispatch c cur n).state ∧ r.temp = r.state) ∨
+    (Touches c b cur n ∧ ∃ l, dispatch c Miros.Gen.cfg cur n = .raise l) := by
+  have hc := C24_fall_dispatch_checked c h.init_depth h.tran_ne_top cur n
+  have hs : specDispatchC c cur n = some (specDispatch c cur n) := by
+    rw [← specDispatchC_noFall, specDispatchC_of_WF c.noFall h.wf, specDispatch_noFall]
+  rw [hs] at hc
+  rcases hc with ⟨r, h1, h2, h3, h4⟩ | ⟨h1, h2⟩
+  · exact Or.inl ⟨r, h1, h2, h3, by rw [h4, h3]⟩
+  · exact Or.inr ⟨touches_of_not_dclear h.only_b h1, h2⟩
+
+/-- **C24 (one fall-through state, start_at).** -/
+theorem C24_fall_one_start (c : Chart) (b : St) (h : OneFall c b) (s : St) (hs : s ≠ []) :
+    (∃ r, startAt c Miros.Gen.cfg s = .ok r ∧ actions r.log = (specStart c s).log ∧
+        r.state = (specStart c s).state ∧ r.temp = r.state ∧ ∀ x ∈ r.log, x.sig ≠ .exit) ∨
+    (TouchesStart c b s ∧ ∃ l, startAt c Miros.Gen.cfg s = .raise l) := by
+  have hd : 0 < c.depth ∨ c.init s = none := by
+    cases hi : c.init s with
+    | none => exact Or.inr rfl
+    | some t =>
+      left
+      obtain ⟨h1, h2⟩ := h.init_desc s t hi
+      have h3 := h.init_depth s t hi
+      obtain ⟨m, hm1, hm2, _⟩ := proper_suffix_drop h1 h2
+      omega
+  have hc := C24_fall_start_checked c h.init_depth s hs hd
+  have hsp : specStartC c s = some (specStart c s) := by
+    rw [← specStartC_noFall, specStartC_of_WF c.noFall h.wf, specStart_noFall]
+  rw [hsp] at hc
+  rcases hc with ⟨r, h1, h2, h3, h4, h5⟩ | ⟨h1, h2⟩
+  · exact Or.inl ⟨r, h1, h2, h3, by rw [h4, h3], h5⟩
+  · exact Or.inr ⟨touchesStart_of_not_clear h.only_b h1, h2⟩
+
+/-- **C24 (not touched).** If the fall-through state `b` (the only one) is neither on the current
+state's path, nor on the target's path, nor on the path of a target of an initial transition
+followed during the step, then the step is exactly — outcome, state, `temp`, and the complete call
+log — the step of the same chart with `fall := fun _ => false`. -/
+theorem C24_fall_not_touched (c : Chart) (b : St) (hb : ∀ s, s ≠ b → c.fall s = false)
+    (htop : ∀ s n t, c.react s n = .tran t → t ≠ [])
+    (cur : St) (n : Nat)
+    (hcur : ¬ b <:+ cur)
+    (htgt : ∀ S T, (offers c n cur).2 = .tran S T →
+      ¬ b <:+ T ∧ ∀ x ∈ initChain c (c.depth + 1) T, ¬ b <:+ x) :
+    dispatch c Miros.Gen.cfg cur n = dispatch { c with fall := fun _ => false } Miros.Gen.cfg cur n := by
+  rcases dispatch_fall c Miros.Gen.cfg (by decide) htop cur n with e | ⟨h1, _⟩
+  · exact e
+  · exfalso
+    rcases touches_of_not_dclear hb h1 with h | ⟨S, T, ho, h | ⟨x, hx, h⟩⟩
+    · exact hcur h
+    · exact (htgt S T ho).1 h
+    · exact (htgt S T ho).2 x hx h
+
+/-- the same for `start_at(s)` -/
+theorem C24_fall_not_touched_start (c : Chart) (b : St) (hb : ∀ s, s ≠ b → c.fall s = false)
+    (s : St) (hs : ¬ b <:+ s) (hch : ∀ x ∈ initChain c (c.depth + 1) s, ¬ b <:+ x) :
+    startAt c Miros.Gen.cfg s = startAt { c with fall := fun _ => false } Miros.Gen.cfg s := by
+  rcases startAt_fall c Miros.Gen.cfg s with e | ⟨h1, _⟩
+  · exact e
+  · exfalso
+    rcases touchesStart_of_not_clear hb h1 with h | ⟨x, hx, h⟩
+    · exact hs h
+    · exact hch x hx h
+
+/-! ### non-vacuity: a chart with one fall-through state -/
+
+/-- `[1] ⊃ [2,1] ⊃ [3,2,1]` and `[1] ⊃ [4,1] ⊃ [5,4,1]`; the handler of `[2,1]` has no final
+`else` (and no exit clause) -/
+def demoF : Chart where
+  react := fun s n =>
+    if s = [4, 1] ∧ n = 0 then .tran [3, 2, 1]        -- a target below the fall-through state
+    else if s = [2, 1] ∧ n = 1 then .unhandled         -- a failing guard of the fall-through state
+    else if s = [5, 4, 1] ∧ n = 2 then .tran [4, 1]    -- a transition that does not come near it
+    else if s = [2, 1] ∧ n = 3 then .tran [2, 1]       -- its own self-transition
+    else .pass
+  init := fun s => if s = [4, 1] then some [5, 4, 1] else none
+  exitH := fun s => s != [2, 1]
+  depth := 3
+  fall := fun s => s == [2, 1]
+
+theorem demoF_one : OneFall demoF [2, 1] where
+  init_desc := by
+    intro s t h
+    simp only [demoF] at h
+    split at h
+    · cases h; subst s; decide
+    · cases h
+  init_depth := by
+    intro s t h
+    simp only [demoF] at h ⊢
+    split at h
+    · cases h; decide
+    · cases h
+  tran_ne_top := by
+    intro s n t h
+    simp only [demoF] at h
+    repeat' split at h
+    all_goals first | (cases h; decide) | cases h
+  no_none := by
+    intro s n
+    simp only [demoF]
+    repeat' split
+    all_goals simp
+  only_b := by
+    intro s hs
+    simp [demoF, hs]
+
+/-- a transition whose target has a fall-through ancestor raises: `trans_` asks `[2,1]` for its
+parent (the last call of the log) and gets `None` -/
+example : dispatch demoF Miros.Gen.cfg [4, 1] 0 =
+    .raise [⟨[4, 1], .user 0⟩, ⟨[3, 2, 1], .search⟩, ⟨[4, 1], .search⟩, ⟨[2, 1], .search⟩] := by decide
+
+/-- an UNHANDLED guard of a fall-through state raises: the EMPTY_SIGNAL that follows gets `None` -/
+example : dispatch demoF Miros.Gen.cfg [2, 1] 1 = .raise [⟨[2, 1], .user 1⟩, ⟨[2, 1], .empty⟩] := by decide
+
+/-- an event the fall-through state has no clause for raises when it bubbles up to it -/
+example : dispatch demoF Miros.Gen.cfg [3, 2, 1] 5 = .raise [⟨[3, 2, 1], .user 5⟩, ⟨[2, 1], .user 5⟩] := by
+  decide
+
+/-- `start_at` below a fall-through state raises: the parent walk of `init()` sees `[2,1]` name
+no parent -/
+example : startAt demoF Miros.Gen.cfg [3, 2, 1] = .raise [⟨[3, 2, 1], .search⟩, ⟨[2, 1], .search⟩] := by
+  decide
+
+/-- `start_at` of the fall-through state itself: it is asked twice (`previous_super` starts as `None`) -/
+example : startAt demoF Miros.Gen.cfg [2, 1] = .raise [⟨[2, 1], .search⟩, ⟨[2, 1], .search⟩] := by decide
+
+/-- the chart works normally where the state is never asked: started in the other branch … -/
+example : startAt demoF Miros.Gen.cfg [4, 1] =
+    .ok ⟨[5, 4, 1], [5, 4, 1],
+      [⟨[4, 1], .search⟩, ⟨[1], .search⟩, ⟨[1], .entry⟩, ⟨[4, 1], .entry⟩, ⟨[4, 1], .init⟩,
+       ⟨[5, 4, 1], .search⟩, ⟨[5, 4, 1], .entry⟩, ⟨[5, 4, 1], .init⟩]⟩ := by decide
+
+/-- … a transition inside that branch does what the UML spec says -/
+example : dispatch demoF Miros.Gen.cfg [5, 4, 1] 2 =
+    .ok ⟨[5, 4, 1], [5, 4, 1],
+      [⟨[5, 4, 1], .user 2⟩, ⟨[4, 1], .search⟩, ⟨[5, 4, 1], .search⟩, ⟨[5, 4, 1], .exit⟩, ⟨[4, 1], .init⟩,
+       ⟨[5, 4, 1], .search⟩, ⟨[5, 4, 1], .entry⟩, ⟨[5, 4, 1], .init⟩]⟩ := by decide
+
+/-- the self-transition of the fall-through state works too (its `None` answer to EXIT is ignored
+by `trans_`): the one place where a `None` goes unnoticed -/
+example : dispatch demoF Miros.Gen.cfg [2, 1] 3 =
+    .ok ⟨[2, 1], [2, 1], [⟨[2, 1], .user 3⟩, ⟨[2, 1], .exit⟩, ⟨[2, 1], .entry⟩, ⟨[2, 1], .init⟩]⟩ := by decide
+
+/-- `C24_fall_one_dispatch` on the demo: the raising step is one that touches `[2,1]` … -/
+example : Touches demoF [2, 1] [4, 1] 0 ∧ ∃ l, dispatch demoF Miros.Gen.cfg [4, 1] 0 = .raise l := by
+  rcases C24_fall_one_dispatch demoF [2, 1] demoF_one [4, 1] 0 with ⟨r, h, _⟩ | h
+  · rw [show dispatch demoF Miros.Gen.cfg [4, 1] 0 =
+        .raise [⟨[4, 1], .user 0⟩, ⟨[3, 2, 1], .search⟩, ⟨[4, 1], .search⟩, ⟨[2, 1], .search⟩] from by decide] at h
+    cases h
+  · exact h
+
+/-- … and `C24_fall_not_touched` applies to the step in the other branch -/
+example : dispatch demoF Miros.Gen.cfg [5, 4, 1] 2 =
+    dispatch { demoF with fall := fun _ => false } Miros.Gen.cfg [5, 4, 1] 2 := by
+  apply C24_fall_not_touched demoF [2, 1] demoF_one.only_b demoF_one.tran_ne_top [5, 4, 1] 2 (by decide)
+  intro S T h
+  have ho : (offers demoF 2 [5, 4, 1]).2 = .tran [5, 4, 1] [4, 1] := by decide
+  rw [ho] at h
+  cases h
+  exact ⟨by decide, by decide⟩
+
+example : startAt demoF Miros.Gen.cfg [4, 1] = startAt { demoF with fall := fun _ => false } Miros.Gen.cfg [4, 1] :=
+  C24_fall_not_touched_start demoF [2, 1] demoF_one.only_b [4, 1] (by decide) (by decide)
+
+/-- the hypotheses of the general theorems are met by the demo -/
+example : (∃ r, dispatch demoF Miros.Gen.cfg [5, 4, 1] 0 = .ok r) ∨
+    (∃ l, dispatch demoF Miros.Gen.cfg [5, 4, 1] 0 = .raise l) :=
+  C24_fall_dispatch_no_diverge demoF demoF_one.init_depth demoF_one.tran_ne_top [5, 4, 1] 0
+
+example : (∃ r, startAt demoF Miros.Gen.cfg [3, 2, 1] = .ok r) ∨
+    (∃ l, startAt demoF Miros.Gen.cfg [3, 2, 1] = .raise l) :=
+  C24_fall_start_no_diverge demoF demoF_one.init_depth [3, 2, 1] (by decide) (Or.inl (by decide))
 
 end Miros.Props.C24
